@@ -113,7 +113,29 @@ async def run_async(scn):
         if not e['notif']:
             r['id'] = i
         batch.append(r)
+    def on_return(t):
+        """logged the moment dispatch() returns - not when the driver gets round to looking"""
+        if t.cancelled():
+            return
+        try:
+            ret = t.result()
+        except BaseException as e:  # noqa
+            ev.append({'ev': 'Raise', 'type': type(e).__name__, 'tag': 0})
+            return
+        out = []
+        if ret is not None:
+            doc = json.loads(ret[0])
+            for o in (doc if isinstance(doc, list) else [doc]):
+                rid = o.get('id')
+                if 'result' in o:
+                    out.append({'id': rid if isinstance(rid, int) else -1, 'body': 'result', 'val': o['result'] if isinstance(o['result'], int) else -1})
+                else:
+                    data = (o.get('error') or {}).get('data')
+                    out.append({'id': rid if isinstance(rid, int) else -1, 'body': 'error', 'val': data if isinstance(data, int) else -1})
+        ev.append({'ev': 'Return', 'out': out})
+
     task = asyncio.ensure_future(d.dispatch(json.dumps(batch), context={'request': 'shared by the whole batch'}))
+    task.add_done_callback(on_return)
     await quiesce()
     for tag in scn['sched']:
         fut = pending.pop(tag, None)
@@ -132,23 +154,11 @@ async def run_async(scn):
             await task
         except BaseException:
             pass
-        return ev
-    try:
-        ret = task.result()
-    except BaseException as e:  # noqa
-        ev.append({'ev': 'Raise', 'type': type(e).__name__, 'tag': 0})
-        return ev
-    out = []
-    if ret is not None:
-        doc = json.loads(ret[0])
-        for o in (doc if isinstance(doc, list) else [doc]):
-            rid = o.get('id')
-            if 'result' in o:
-                out.append({'id': rid if isinstance(rid, int) else -1, 'body': 'result', 'val': o['result'] if isinstance(o['result'], int) else -1})
-            else:
-                data = (o.get('error') or {}).get('data')
-                out.append({'id': rid if isinstance(rid, int) else -1, 'body': 'error', 'val': data if isinstance(data, int) else -1})
-    ev.append({'ev': 'Return', 'out': out})
+    # whatever the library left running in the background is not awaited by anybody: stop it
+    for t in asyncio.all_tasks():
+        if t is not asyncio.current_task() and not t.done():
+            ev.append({'ev': 'LeftRunning', 'tag': 0})
+            t.cancel()
     return ev
 
 
